@@ -310,6 +310,11 @@ fn scenarios() -> Vec<Scenario> {
 /// content of the key on a node, in comparable form
 fn content(rig: &mut NodeRig, key: &RecordKey, kind: &str) -> String {
     let Some(bytes) = rig.stored(key) else { return "absent".into() };
+    // a copy the node merely serves (from its read cache) without listing the key is not a stored copy: it is not
+    // advertised, not counted, and gone after a restart
+    if !rig.contains(key) {
+        return "served-but-not-listed".into();
+    }
     let r = Record { key: key.clone(), value: bytes.clone(), publisher: None, expires: None };
     match kind {
         "chunk" => format!("chunk:{}", mc_core::hex8(&bytes)),
